@@ -1,0 +1,56 @@
+// Copyright 2025 BINARY Members
+//
+// Licensed under the Apache License, Version 2.0 (the "License");
+// you may not use this file except in compliance with the License.
+// You may obtain a copy of the License at
+//
+//     http://www.apache.org/licenses/LICENSE-2.0
+//
+// Unless required by applicable law or agreed to in writing, software
+// distributed under the License is distributed on an "AS IS" BASIS,
+// WITHOUT WARRANTIES OR CONDITIONS OF ANY KIND, either express or implied.
+// See the License for the specific language governing permissions and
+// limitations under the License.
+
+//go:build verif
+
+// Package vhook holds the observation points used by the external verification harness.
+// With the build tag "verif" the calls are forwarded to the handlers installed by the harness.
+// A handler may block (that is how the harness chooses a schedule), it never changes engine state.
+package vhook
+
+import "sync/atomic"
+
+type Handlers struct {
+	FS     func(op, path string, n int)
+	FSDone func(op, path string, n int)
+	Event  func(name string, args ...any)
+}
+
+var handlers atomic.Pointer[Handlers]
+
+// Install replaces the handlers, nil removes them.
+func Install(h *Handlers) {
+	handlers.Store(h)
+}
+
+// FS is called immediately before a file system operation.
+func FS(op, path string, n int) {
+	if h := handlers.Load(); h != nil && h.FS != nil {
+		h.FS(op, path, n)
+	}
+}
+
+// FSDone is called immediately after the file system operation announced by FS.
+func FSDone(op, path string, n int) {
+	if h := handlers.Load(); h != nil && h.FSDone != nil {
+		h.FSDone(op, path, n)
+	}
+}
+
+// Event is called at a logical step of the engine.
+func Event(name string, args ...any) {
+	if h := handlers.Load(); h != nil && h.Event != nil {
+		h.Event(name, args...)
+	}
+}
